@@ -161,8 +161,10 @@ def extractLine (args : List String) (impl : List String) : String :=
 def phcrunLine (args : List String) (impl : List String) : String :=
   match args with
   | [hex, chrony, stratum, ip4, phc] =>
-    match DriverH.parseHex hex, chrony.toNat?, stratum.toNat?, ip4.toNat?, phc.toInt? with
-    | some cfg, some ch, some stv, some ipv, some p =>
+    match DriverH.parseHex hex, chrony.toNat?, stratum.toNat?, ip4.toNat? with
+    | some cfg, some ch, some stv, some ipv =>
+      -- anything that is not an integer stands for an attribute whose content does not parse (`bad0` empty, `bad1` "N/A", ..)
+      let p : Option Int := phc.toInt?
       let model := match C13.phcExpected cfg ch p with
         | some b => s!"pub {b} 1"
         | none => "exited"
@@ -175,9 +177,10 @@ def phcrunLine (args : List String) (impl : List String) : String :=
       let tags := ["phcrun"] ++ (if constrained then (if refidOf cfg == some ch then ["match"] else ["nomatch"]) else ["norefid"]) ++
         (if cfg.any (fun b => decide (97 ≤ b ∧ b ≤ 122)) then ["lower"] else []) ++
         (if cfg.all (fun b => decide ((48 ≤ b ∧ b ≤ 57) ∨ (65 ≤ b ∧ b ≤ 70) ∨ (97 ≤ b ∧ b ≤ 102))) && !cfg.isEmpty then ["hexlike"] else []) ++
-        (if cfg.length < 4 then ["short"] else []) ++ (if stv ≠ 1 then ["stratum"] else []) ++ (if ipv ≠ 0 then ["addr"] else [])
+        (if cfg.length < 4 then ["short"] else []) ++ (if stv ≠ 1 then ["stratum"] else []) ++ (if ipv ≠ 0 then ["addr"] else []) ++
+        (if p.isNone then ["phcUnparsable"] else [])
       s!"{model} | {v13} {v07} | {String.intercalate "," tags}"
-    | _, _, _, _, _ => "bad-op | |"
+    | _, _, _, _ => "bad-op | |"
   | _ => "bad-op | |"
 
 /-- one message of an `upd` history -/
